@@ -417,3 +417,43 @@ mod tests {
         assert_eq!(token.server_to_client_key, private.server_to_client_key);
     }
 }
+
+#[cfg(feature = "verif_hooks")]
+pub fn verif_seal_private_token(
+    token: &crate::verif::PrivateToken,
+    protocol_id: u64,
+    expire_timestamp: u64,
+    xnonce: &[u8; NETCODE_CONNECT_TOKEN_XNONCE_BYTES],
+    private_key: &[u8; NETCODE_KEY_BYTES],
+) -> Result<[u8; NETCODE_CONNECT_TOKEN_PRIVATE_BYTES], TokenGenerationError> {
+    let private = PrivateConnectToken {
+        client_id: token.client_id,
+        timeout_seconds: token.timeout_seconds,
+        server_addresses: token.server_addresses,
+        client_to_server_key: token.client_to_server_key,
+        server_to_client_key: token.server_to_client_key,
+        user_data: token.user_data,
+    };
+    let mut buffer = [0u8; NETCODE_CONNECT_TOKEN_PRIVATE_BYTES];
+    private.encode(&mut buffer, protocol_id, expire_timestamp, xnonce, private_key)?;
+    Ok(buffer)
+}
+
+#[cfg(feature = "verif_hooks")]
+pub fn verif_open_private_token(
+    buffer: &[u8; NETCODE_CONNECT_TOKEN_PRIVATE_BYTES],
+    protocol_id: u64,
+    expire_timestamp: u64,
+    xnonce: &[u8; NETCODE_CONNECT_TOKEN_XNONCE_BYTES],
+    private_key: &[u8; NETCODE_KEY_BYTES],
+) -> Result<crate::verif::PrivateToken, TokenGenerationError> {
+    let private = PrivateConnectToken::decode(buffer, protocol_id, expire_timestamp, xnonce, private_key)?;
+    Ok(crate::verif::PrivateToken {
+        client_id: private.client_id,
+        timeout_seconds: private.timeout_seconds,
+        server_addresses: private.server_addresses,
+        client_to_server_key: private.client_to_server_key,
+        server_to_client_key: private.server_to_client_key,
+        user_data: private.user_data,
+    })
+}
